@@ -7,6 +7,7 @@ Driver/C02 — runs the parser front ends of Model/ParseGuards on the harness' r
                                                    harness hands to the BLTE decoders       → ok
   run <parser> <seed> <edits|-> c=<c> k=<k> cap=<cap> obs=<class>
       edits: comma list of  t<n> (truncate) | p<off>:<hex> (overwrite) | a<hex> (append)
+             | r<n>:<hex> (append the bytes n times)
       → `<class> big=<0|1>`: class = panic / err where the front end decides, `abort` when a
         front-end allocation exceeds the worker's cap, otherwise (front end passes, or the parser
         has no front-end model) the observed class is repeated — except for the parsers with a
@@ -18,6 +19,9 @@ Driver/C02 — runs the parser front ends of Model/ParseGuards on the harness' r
         chunk payload through `Blte.encFront`;
         big = a front-end allocation exceeds c·len+k or a capped one exceeds MAX_DECOMPRESSION_SIZE.
   lhdr <hex>   LocalHeader::from_bytes + blte_size                       → none | blte=<n>
+  espec <edits>   ESpec::parse on the (all-ASCII) input made by the edits from the empty input:
+      → `ok depth=<n>` (n = deepest `parse_espec` frame = depth of the parsed tree)
+      | `err deep@<pos>` (NestingTooDeep raised at byte pos) | `err other` | `nonascii`
 -/
 import Driver.Common
 import Cascette.Model.ParseGuards
@@ -50,6 +54,13 @@ def applyEdit (d : Bytes) (e : String) : Option Bytes :=
   match e.toList with
   | 't' :: r => (String.ofList r).toNat?.map (fun n => d.take n)
   | 'a' :: r => (parseHex (String.ofList r)).map (fun x => d ++ x)
+  | 'r' :: r =>
+    match (String.ofList r).splitOn ":" with
+    | [n, h] =>
+      match n.toNat?, parseHex h with
+      | some n, some x => if n * x.length ≤ 67108864 then some (d ++ (List.replicate n x).flatten) else none
+      | _, _ => none
+    | _ => none
   | 'p' :: r =>
     match (String.ofList r).splitOn ":" with
     | [o, h] =>
@@ -153,6 +164,16 @@ def step (s : St) (t : List String) : St × String :=
           let big := f.big c k d.length
           (s, s!"{cls} big={if big then 1 else 0}")
     | _, _, _, _, _ => (s, "bad-op")
+  | ["espec", es] =>
+    match applyEdits [] es with
+    | none => (s, "bad-op")
+    | some d =>
+      if !isAscii d then (s, "nonascii")
+      else
+        (s, match Model.ParseFronts.ESpec.parseX (asChars d) with
+          | (.ok, m) => s!"ok depth={m}"
+          | (.deep p, _) => s!"err deep@{p}"
+          | (.other, _) => "err other")
   | ["lhdr", h] =>
     match parseHex h with
     | some d => (s, match Model.ParseFronts.LHdr.front d with | none => "none" | some n => s!"blte={n}")
